@@ -82,33 +82,58 @@ theorem isRootedIn_spec {fs : FS} {root : Bytes} {parts : List Bytes}
       omega
   · exact absurd rfl h
 
-/-- A root key obtained by cutting `n` bytes off a prefix `r` of the normalised
-path of `f`, the rest of the path being a file under `loc`. -/
-def RootWitness (fs : FS) (f loc : Bytes) (n : Nat) (k : Bytes) : Prop :=
-  ∃ r rel, pathJoin (splitPath f) = r ++ b!"/" ++ rel ∧ fs.isFile (loc ++ b!"/" ++ rel) = true ∧
-    n ≤ r.length ∧ k = r.take (r.length - n)
+/-! ### suffix test -/
 
-/-- the key is a prefix of the normalised path, `n` bytes before the `/` that
-starts the part found on disk -/
-theorem RootWitness.prefix {fs : FS} {f loc k : Bytes} {n : Nat} (h : RootWitness fs f loc n k) :
-    ∃ mid rel, mid.length = n ∧ pathJoin (splitPath f) = k ++ mid ++ b!"/" ++ rel ∧
+/-- `strings.HasSuffix(r, suf)` makes `r[:len(r)-len(suf)]` a valid slice -/
+theorem length_le_of_hasSuffix {r suf : Bytes} (h : hasSuffix r suf = true) : suf.length ≤ r.length := by
+  simp only [hasSuffix, Bool.and_eq_true, decide_eq_true_eq] at h
+  exact h.1
+
+/-- `r[:len(r)-len(suf)] + suf == r` once `strings.HasSuffix(r, suf)` -/
+theorem take_append_of_hasSuffix {r suf : Bytes} (h : hasSuffix r suf = true) :
+    r.take (r.length - suf.length) ++ suf = r := by
+  obtain ⟨a, rfl⟩ := hasSuffix_iff.mp h
+  simp
+
+theorem hasSuffix_nil_false {suf : Bytes} (h : suf ≠ []) : hasSuffix [] suf = false := by
+  cases suf with
+  | nil => exact absurd rfl h
+  | cons x t => simp [hasSuffix]
+
+/-- A root key `k` found by a probe under the local directory `loc`: `k ++ suf`
+(`suf` is `/src` or `/pkg/mod`) is `parts[:i]` joined for a proper, non-empty
+prefix of the parts of `f`, and `parts[i:]` joined is a file under `loc`. -/
+def RootWitness (fs : FS) (f loc suf k : Bytes) : Prop :=
+  ∃ i, 0 < i ∧ i < (splitPath f).length ∧ k ++ suf = pathJoin ((splitPath f).take i) ∧
+    fs.isFile (loc ++ b!"/" ++ pathJoin ((splitPath f).drop i)) = true
+
+/-- the key, the directory cut off, a `/` and the part found on disk make up the
+normalised path -/
+theorem RootWitness.prefix {fs : FS} {f loc suf k : Bytes} (h : RootWitness fs f loc suf k) :
+    ∃ rel, pathJoin (splitPath f) = k ++ suf ++ b!"/" ++ rel ∧
       fs.isFile (loc ++ b!"/" ++ rel) = true := by
-  obtain ⟨r, rel, e, hf, hn, hk⟩ := h
-  refine ⟨r.drop (r.length - n), rel, by simp; omega, ?_, hf⟩
-  rw [hk, List.take_append_drop]
-  exact e
+  obtain ⟨i, h1, h2, e, hf⟩ := h
+  exact ⟨pathJoin ((splitPath f).drop i), by rw [e, pathJoin_take_drop _ i h1 h2], hf⟩
 
-theorem rootWitness_of_isRootedIn {fs : FS} {f loc : Bytes} {n : Nat}
-    (h : isRootedIn fs loc (splitPath f) ≠ []) (hn : n ≤ (isRootedIn fs loc (splitPath f)).length) :
-    RootWitness fs f loc n ((isRootedIn fs loc (splitPath f)).take ((isRootedIn fs loc (splitPath f)).length - n)) := by
-  obtain ⟨i, h1, h2, hfile, hr, _⟩ := isRootedIn_spec h
-  exact ⟨_, pathJoin ((splitPath f).drop i), by rw [hr, pathJoin_take_drop _ i h1 h2], hfile, hn, rfl⟩
+theorem rootWitness_of_isRootedIn {fs : FS} {f loc suf : Bytes} (hsuf : suf ≠ [])
+    (h : hasSuffix (isRootedIn fs loc (splitPath f)) suf = true) :
+    RootWitness fs f loc suf
+      ((isRootedIn fs loc (splitPath f)).take ((isRootedIn fs loc (splitPath f)).length - suf.length)) := by
+  have hne : isRootedIn fs loc (splitPath f) ≠ [] := by
+    intro e
+    rw [e, hasSuffix_nil_false hsuf] at h
+    exact absurd h (by simp)
+  obtain ⟨i, h1, h2, hfile, hr, _⟩ := isRootedIn_spec hne
+  exact ⟨i, h1, h2, by rw [take_append_of_hasSuffix h, hr], hfile⟩
 
 /-! ### the loop over the local GOPATHs -/
 
+theorem srcDir_ne : srcDir ≠ [] := by decide
+theorem pkgmodDir_ne : pkgmodDir ≠ [] := by decide
+
 theorem findGopath_spec {fs : FS} {f : Bytes} {lgs : List Bytes} {k l : Bytes}
     (h : findGopath fs (splitPath f) lgs = .ok (some (k, l))) :
-    l ∈ lgs ∧ (RootWitness fs f (l ++ srcDir) 4 k ∨ RootWitness fs f (l ++ pkgmodDir) 8 k) := by
+    l ∈ lgs ∧ (RootWitness fs f (l ++ srcDir) srcDir k ∨ RootWitness fs f (l ++ pkgmodDir) pkgmodDir k) := by
   induction lgs with
   | nil => simp [findGopath] at h
   | cons a t ih =>
@@ -117,22 +142,36 @@ theorem findGopath_spec {fs : FS} {f : Bytes} {lgs : List Bytes} {k l : Bytes}
     · rename_i h1
       split at h
       · cases h
-      · rename_i h2
-        simp only [Except.ok.injEq, Option.some.injEq, Prod.mk.injEq] at h
+      · simp only [Except.ok.injEq, Option.some.injEq, Prod.mk.injEq] at h
         obtain ⟨rfl, rfl⟩ := h
-        refine ⟨List.mem_cons_self, Or.inl ?_⟩
-        exact rootWitness_of_isRootedIn (by simpa using h1) (by simp [srcDir] at h2 ⊢; omega)
+        exact ⟨List.mem_cons_self, Or.inl (rootWitness_of_isRootedIn srcDir_ne h1)⟩
     · split at h
       · rename_i h1
         split at h
         · cases h
-        · rename_i h2
-          simp only [Except.ok.injEq, Option.some.injEq, Prod.mk.injEq] at h
+        · simp only [Except.ok.injEq, Option.some.injEq, Prod.mk.injEq] at h
           obtain ⟨rfl, rfl⟩ := h
-          refine ⟨List.mem_cons_self, Or.inr ?_⟩
-          exact rootWitness_of_isRootedIn (by simpa using h1) (by simp [pkgmodDir] at h2 ⊢; omega)
+          exact ⟨List.mem_cons_self, Or.inr (rootWitness_of_isRootedIn pkgmodDir_ne h1)⟩
       · obtain ⟨hm, hw⟩ := ih h
         exact ⟨List.mem_cons_of_mem _ hm, hw⟩
+
+/-- the slice expressions of the GOPATH loop are in range -/
+theorem findGopath_ok (fs : FS) (parts lgs : List Bytes) : ∃ o, findGopath fs parts lgs = .ok o := by
+  induction lgs with
+  | nil => exact ⟨none, rfl⟩
+  | cons a t ih =>
+    simp only [findGopath]
+    split
+    · rename_i h1
+      have := length_le_of_hasSuffix h1
+      rw [if_neg (by omega)]
+      exact ⟨_, rfl⟩
+    · split
+      · rename_i h1
+        have := length_le_of_hasSuffix h1
+        rw [if_neg (by omega)]
+        exact ⟨_, rfl⟩
+      · exact ih
 
 /-! ### isGoModule -/
 
@@ -165,7 +204,7 @@ theorem isGoModuleGo_spec {fs : FS} {parts : List Bytes} {n : Nat} {cache cache'
 
 def GopathOK (fs : FS) (lgs files : List Bytes) (kv : Bytes × Bytes) : Prop :=
   kv.2 ∈ lgs ∧ ∃ f ∈ files,
-    RootWitness fs f (kv.2 ++ srcDir) 4 kv.1 ∨ RootWitness fs f (kv.2 ++ pkgmodDir) 8 kv.1
+    RootWitness fs f (kv.2 ++ srcDir) srcDir kv.1 ∨ RootWitness fs f (kv.2 ++ pkgmodDir) pkgmodDir kv.1
 
 def GomodOK (fs : FS) (files : List Bytes) (kv : Bytes × Bytes) : Prop :=
   ∃ f ∈ files,
@@ -174,7 +213,7 @@ def GomodOK (fs : FS) (files : List Bytes) (kv : Bytes × Bytes) : Prop :=
     (fs.isFile f = true ∧ kv.1 = pathDir f ∧ kv.2 = b!"main")
 
 structure Sound (fs : FS) (lg : Bytes) (lgs files : List Bytes) (g0 : Bytes) (st : RootsState) : Prop where
-  goroot : st.goroot = g0 ∨ ∃ f ∈ files, RootWitness fs f (lg ++ srcDir) 4 st.goroot
+  goroot : st.goroot = g0 ∨ ∃ f ∈ files, RootWitness fs f (lg ++ srcDir) srcDir st.goroot
   gopaths : ∀ kv ∈ st.gopaths, GopathOK fs lgs files kv
   gomods : ∀ kv ∈ st.gomods, GomodOK fs files kv
 
@@ -227,14 +266,14 @@ theorem findRootsDisk_sound {fs : FS} {lg : Bytes} {lgs files : List Bytes} {g0 
   · rename_i hr
     split at h
     · cases h
-    · rename_i hlen
-      cases h
+    · cases h
       refine ⟨Or.inr ⟨f, hf, ?_⟩, hs.gopaths, hs.gomods⟩
-      unfold gorootProbe at hr hlen ⊢
+      unfold gorootProbe at hr ⊢
       split at hr
-      · simp only [*, if_true] at hlen ⊢
-        exact rootWitness_of_isRootedIn (by simpa using hr) (by simp [srcDir] at hlen ⊢; omega)
-      · simp at hr
+      · simp only [*, if_true]
+        exact rootWitness_of_isRootedIn srcDir_ne hr
+      · rw [hasSuffix_nil_false srcDir_ne] at hr
+        exact absurd hr (by simp)
   · split at h
     · cases h
     · rename_i k l hg
@@ -273,6 +312,42 @@ theorem findRootsLoop_sound {fs : FS} {lg : Bytes} {lgs files : List Bytes} {g0 
     · rename_i st1 h1
       exact ih (fun x hx => hsub x (List.mem_cons_of_mem _ hx))
         (findRootsStep_sound hs (hsub f List.mem_cons_self) h1) h
+
+/-! ### no slice out of range -/
+
+theorem findRootsDisk_ok (fs : FS) (lg : Bytes) (lgs : List Bytes) (st : RootsState) (f : Bytes) :
+    ∃ st', findRootsDisk fs lg lgs st f = .ok st' := by
+  unfold findRootsDisk
+  split
+  · rename_i hr
+    have := length_le_of_hasSuffix hr
+    rw [if_neg (by omega)]
+    exact ⟨_, rfl⟩
+  · obtain ⟨o, ho⟩ := findGopath_ok fs (splitPath f) lgs
+    rw [ho]
+    cases o with
+    | none => exact ⟨_, rfl⟩
+    | some kl => exact ⟨_, rfl⟩
+
+theorem findRootsStep_ok (fs : FS) (lg : Bytes) (lgs : List Bytes) (st : RootsState) (f : Bytes) :
+    ∃ st', findRootsStep fs lg lgs st f = .ok st' := by
+  unfold findRootsStep
+  split
+  · exact ⟨_, rfl⟩
+  · split
+    · exact ⟨_, rfl⟩
+    · split
+      · exact ⟨_, rfl⟩
+      · exact findRootsDisk_ok fs lg lgs st f
+
+theorem findRootsLoop_ok (fs : FS) (lg : Bytes) (lgs : List Bytes) (st : RootsState) (todo : List Bytes) :
+    ∃ st', findRootsLoop fs lg lgs st todo = .ok st' := by
+  induction todo generalizing st with
+  | nil => exact ⟨st, rfl⟩
+  | cons f t ih =>
+    obtain ⟨st1, h1⟩ := findRootsStep_ok fs lg lgs st f
+    simp only [findRootsLoop, h1]
+    exact ih st1
 
 /-! ### getFiles -/
 
